@@ -25,7 +25,7 @@ RULE = ("R-score notes, containers, bars and tracks played through play_Note/Not
         "segments and the timed on/off multiset, per-(pitch, channel) balance, on-order (sequential API), total sleep, instrument "
         "announcements, observer trace and return value are compared with the model. Non-trivial: a case with a chord and a rest, "
         "a tempo change, or >= 2 parallel parts; a refused control change."
-        ' Also: pitches up to 135 (octaves 0-10), tempo marks on empty containers, twin bars, and a second pass of the same music on the same sequencer must emit the same events.')
+        ' Also: pitches up to 135 (octaves 0-10), tempo marks on empty containers, twin bars, a second pass of the same music on the same sequencer must emit the same events; chords that are not in ascending order, entries held in a user subclass of NoteContainer and tracks on a user subclass of MidiInstrument; control numbers / values that are no integers and lie just outside 0..128.')
 ASSUMPTIONS = ["in parallel playback tempo-carrying containers are generated in the first part only (two simultaneous tempo changes "
                "have no stated winner)", "parallel parts have the same number of bars, the same meter per bar index and >= 1 entry per bar",
                "MidiInstrument cases have instrument_nr == names.index(name) (unknown name: instrument_nr 1), so 'the MIDI instrument's "
@@ -352,7 +352,7 @@ OBS = ["none", "once", "twice", "detached", "two"]
 
 def _cfg(**kw):
     base = dict(groups=SG.plain_groups(bases=(1, 2, 4, 8, 16, 32), max_dots=2), min_pitch=0, max_pitch=135, octaves=list(range(0, 11)), bpm_p=5, bpms=st.integers(30, 300),
-                max_bars=3, max_groups=5, max_chord=4, rest_p=4, partial_last=True, instruments=["none"], twin_p=5, empty_containers=True, bpm_on_empty=True,
+                max_bars=3, max_groups=5, max_chord=4, rest_p=4, partial_last=True, instruments=["none"], twin_p=5, subclass_p=8, unsorted_p=6, empty_containers=True, bpm_on_empty=True,
                 meters=[[4, 4], [3, 4], [6, 8], [2, 2], [5, 4], [2, 4], [7, 8], [3, 8]])
     base.update(kw)
     return SG.Cfg(**base)
@@ -396,14 +396,16 @@ def _parallel_st(draw, aligned):
                     b["entries"] = [{"v": [meter[1], 0, 1, 1], "notes": None}]
             tracks[j]["bars"].append(b)
     for t in tracks:
-        kind = draw(st.sampled_from(["none", "generic", "midi", "midi-unknown"]))
+        kind = draw(st.sampled_from(["none", "generic", "midi", "midi-unknown", "midi-sub"]))
         if kind == "generic":
             t["instr"] = {"kind": "generic", "name": "Some instrument"}
-        elif kind == "midi":
+        elif kind in ("midi", "midi-sub"):
             nr = draw(st.integers(0, len(MidiInstrument.names) - 1))
             # a name that occurs twice in the table would make index() ambiguous: take the first occurrence
             nr = MidiInstrument.names.index(MidiInstrument.names[nr])
             t["instr"] = {"kind": "midi", "nr": nr, "name": MidiInstrument.names[nr]}
+            if kind == "midi-sub":  # the user's own subclass of MidiInstrument
+                t["instr"]["sub"] = True
         elif kind == "midi-unknown":
             t["instr"] = {"kind": "midi", "nr": 1, "name": "No such instrument"}
     return {"tracks": tracks, "cls": "aligned" if aligned else "free", "kind": draw(st.sampled_from(["bars", "tracks", "tracks", "composition"])),
@@ -423,9 +425,18 @@ def sub_cc(ctx, shard, n):
     cases = [["control_change", ch, c, v, m] for ch in (0, 9, 15) for c in list(range(-5, 4)) + list(range(124, 136)) + [64]
              for v in list(range(-5, 4)) + list(range(124, 136)) + [64] for m in ("none", "once")]
     cases += [[via, 3, 0, v, m] for via in ("modulation", "main_volume", "pan") for v in (-1, 0, 1, 64, 127, 128, 129) for m in ("once", "twice", "detached")]
-    ctx.exhaustive("control changes", "3 channels x 22 controls x 22 values x 2 observer modes + wrappers", len(cases))
+    # numbers and values that are no integers, just outside the accepted range (and far outside): refused like the integers
+    outside = [-0.5, -0.001, -1e-9, 128.5, 128.001, 128.0000001, -1.5, 129.5, 1e9, -1e9]
+    cases += [["control_change", ch, c, v, m] for ch in (0, 9) for m in ("none", "once") for o in outside for (c, v) in ((o, 64), (64, o), (o, o), (0, o), (o, 128))]
+    cases += [[via, 3, 0, o, "once"] for via in ("modulation", "main_volume", "pan") for o in outside]
+    ctx.exhaustive("control changes", "3 channels x 22 controls x 22 values x 2 observer modes + wrappers + 10 non-integers outside the range", len(cases))
     ctx.enumerate("cc", check_cc, cases)
     strat = st.tuples(st.just("control_change"), st.integers(0, 15), st.integers(-5, 135), st.integers(-5, 135), st.sampled_from(OBS)).map(list)
+    ctx.given("cc", check_cc, strat, 300 if ctx.quick else 3000)
+    out = st.floats(-2.0, 0.0, exclude_max=True) | st.floats(128.0, 130.0, exclude_min=True)
+    inside = st.integers(0, 128)
+    strat = st.tuples(st.just("control_change"), st.integers(0, 15), out | inside, out, st.sampled_from(OBS)).map(list) | \
+        st.tuples(st.just("control_change"), st.integers(0, 15), out, out | inside, st.sampled_from(OBS)).map(list)
     ctx.given("cc", check_cc, strat, 300 if ctx.quick else 3000)
 
 
